@@ -408,6 +408,19 @@ func (g *FnGen) emitAxioms() {
 			}
 		}
 	}
+	// lemmas marked `use` (proved as obligations of their own) are available to the function VCs of their package
+	if g.fn != nil && g.pc != nil {
+		for _, lm := range g.pc.Lemmas {
+			if !lm.Use || (lm.Mode != "" && lm.Mode != g.mode) {
+				continue
+			}
+			env := &Env{g: g, vars: map[string]Val{}, cur: g.cur, old: g.cur, pkg: g.prog.typesPkg(g.pc.PkgPath), pcs: []*PkgContracts{g.pc}}
+			if t, ok := env.tryTr(lm.E); ok && t.S == "Bool" {
+				g.assume(t.T)
+				g.note("lemma " + lm.Name + " used (proved separately as obligation lemma:" + lm.Name + ")")
+			}
+		}
+	}
 }
 
 func (g *FnGen) finishTags() {
